@@ -161,11 +161,15 @@ Proof.
     assert (Hnn : 1 <= lenZ new).
     { rewrite Hn. unfold Gen.calc_num_clusters. cbv zeta. fold (bpc s). unfold ceil_div. apply Z.div_le_lower_bound; [exact HB|]. nia. }
     assert (Hne : new <> []) by (intro; subst new; unfold lenZ in Hnn; cbn in Hnn; lia).
+    destruct (chain_raw _ _ _ Hch) as [Hraw Hle].
     assert (Hch1 : chain s1 c = (ch ++ new, true)).
-    { unfold chain, s1. cbn [s_fat upd_fat]. replace (ft (upd_fat s2 _ _)) with (ft s) by (rewrite <- Et2; reflexivity).
-      replace (dmax (upd_fat s2 _ _)) with (dmax s) by (symmetry; apply dmax_geo; [apply Hg2|apply Hg2]).
-      rewrite Hfat. apply extend_chain; try assumption; [apply dmax_dok; exact Hv|].
-      eapply Forall_impl; [|exact Hf]. cbv beta. intros a Ha. rewrite Hfree in Ha. lia. }
+    { apply chain_of_raw.
+      - unfold s1. cbn [s_fat upd_fat]. replace (ft (upd_fat s2 _ _)) with (ft s) by (rewrite <- Et2; reflexivity).
+        replace (dmax (upd_fat s2 _ _)) with (dmax s) by (symmetry; apply dmax_geo; [apply Hg2|apply Hg2]).
+        rewrite Hfat. apply extend_chain; try assumption; [apply dmax_dok; exact Hv|].
+        eapply Forall_impl; [|exact Hf]. cbv beta. intros a Ha. rewrite Hfree in Ha. lia.
+      - replace (max_cluster s1) with (max_cluster s) by (symmetry; apply max_cluster_geo; [apply Hg2|apply Hg2]).
+        apply Forall_app. split; [exact Hle|]. eapply Forall_impl; [|exact Hf]. cbv beta. intros a Ha. lia. }
     rewrite Hch1 in Hw.
     assert (Hall : Forall (inside s) (ch ++ new)).
     { apply Forall_app. split; [exact Hin|]. eapply Forall_impl; [|exact Hf]. cbv beta. intros a Ha. apply Hvol. lia. }
@@ -230,13 +234,16 @@ Proof.
   assert (Hhd : hd 0 suf = cpos).
   { unfold suf, cpos. clear - Hk. revert ch Hk. induction k as [|j IH]; intros ch Hk; destruct ch as [|x r]; try (cbn in Hk; lia); [reflexivity|].
     cbn [skipn nth]. apply IH. cbn in Hk. lia. }
-  destruct (chain_go_links _ _ _ _ _ _ Hch) as [Hl Hh0].
-  pose proof (chain_go_nodup _ _ _ _ _ _ Hch) as Hnd.
+  destruct (chain_raw _ _ _ Hch) as [Hraw Hle].
+  destruct (chain_go_links _ _ _ _ _ _ Hraw) as [Hl Hh0].
+  pose proof (chain_go_nodup _ _ _ _ _ _ Hraw) as Hnd.
   assert (Hlsuf : links (ft s) (dmax s) (s_fat s) suf) by (apply (links_suffix _ _ _ pre); [exact Hsufne|rewrite <- Hsplit; exact Hl]).
   assert (Hchs : chain s cpos = (suf, true)).
-  { unfold chain. rewrite <- Hhd. apply links_chain_go; [exact Hlsuf|].
-    pose proof (chain_go_length (length (s_fat s)) (ft s) (dmax s) (s_fat s) c0) as Hlen. unfold chain in Hch. rewrite Hch in Hlen. cbn [fst] in Hlen.
-    unfold suf. rewrite skipn_length. lia. }
+  { apply chain_of_raw.
+    - rewrite <- Hhd. apply links_chain_go; [exact Hlsuf|].
+      pose proof (chain_go_length (length (s_fat s)) (ft s) (dmax s) (s_fat s) c0) as Hlen. rewrite Hraw in Hlen. cbn [fst] in Hlen.
+      unfold suf. rewrite skipn_length. lia.
+    - rewrite Hsplit in Hle. apply Forall_app in Hle. apply Hle. }
   assert (Hinsuf : Forall (inside s) suf).
   { apply Forall_forall. intros x Hx. rewrite Forall_forall in Hin. apply Hin. rewrite Hsplit. apply in_or_app. right. exact Hx. }
   destruct (wdc_file_data s _ cpos s' suf Hd G Hv Hh Hchs Hinsuf Hvol Hw) as (new & Hc' & Hall & Hnew & Hsort & Hfat & Hgeo & Hrc & Hfr & Hlog).
@@ -246,9 +253,11 @@ Proof.
   { intros x Hn Ho. pose proof (links_nonfree _ _ _ _ Hv Hl) as Hnf. rewrite Forall_forall in Hnf, Hnew. specialize (Hnf x Ho). specialize (Hnew x Hn). lia. }
   assert (Hlast : last suf 0 = last ch 0) by (apply last_skipn; exact Hk).
   split.
-  { unfold chain. rewrite Hfat, Hft, (dmax_geo s s' (proj1 Hgeo) (proj1 (proj2 Hgeo))). destruct new as [|n0 nr].
-    - cbn [length Nat.eqb]. rewrite app_nil_r. exact Hch.
-    - cbn [length Nat.eqb]. rewrite Hlast. apply extend_chain; try assumption; [apply dmax_dok; exact Hv|discriminate]. }
+  { destruct (chain_raw _ _ _ Hc') as [_ Hle']. apply chain_of_raw.
+    - rewrite Hfat, Hft, (dmax_geo s s' (proj1 Hgeo) (proj1 (proj2 Hgeo))). destruct new as [|n0 nr].
+      + cbn [length Nat.eqb]. rewrite app_nil_r. exact Hraw.
+      + cbn [length Nat.eqb]. rewrite Hlast. apply extend_chain; try assumption; [apply dmax_dok; exact Hv|discriminate].
+    - apply Forall_app in Hle'. rewrite (max_cluster_geo s s' (proj1 Hgeo) (proj1 (proj2 Hgeo))) in *. apply Forall_app. split; [exact Hle|apply Hle']. }
   split.
   { rewrite Hsplit, <- app_assoc. apply Forall_app. split; [|exact Hall].
     apply Forall_forall. intros x Hx. rewrite Forall_forall in Hin. apply Hin. rewrite Hsplit. apply in_or_app. left. exact Hx. }
@@ -433,11 +442,15 @@ Proof.
     assert (Hnn : 1 <= lenZ new).
     { rewrite Hn. unfold Gen.calc_num_clusters. cbv zeta. fold (bpc s). unfold ceil_div. apply Z.div_le_lower_bound; [exact HB|]. nia. }
     assert (Hne : new <> []) by (intro; subst new; unfold lenZ in Hnn; cbn in Hnn; lia).
+    destruct (chain_raw _ _ _ Hch) as [Hraw Hle].
     assert (Hch1 : chain s1 c = (ch ++ new, true)).
-    { unfold chain, s1. cbn [s_fat upd_fat]. replace (ft (upd_fat s2 _ _)) with (ft s) by (rewrite <- Et2; reflexivity).
-      replace (dmax (upd_fat s2 _ _)) with (dmax s) by (symmetry; apply dmax_geo; [apply Hg2|apply Hg2]).
-      rewrite Hfat. apply extend_chain; try assumption; [apply dmax_dok; exact Hv|].
-      eapply Forall_impl; [|exact Hf]. cbv beta. intros a Ha. rewrite Hfree in Ha. lia. }
+    { apply chain_of_raw.
+      - unfold s1. cbn [s_fat upd_fat]. replace (ft (upd_fat s2 _ _)) with (ft s) by (rewrite <- Et2; reflexivity).
+        replace (dmax (upd_fat s2 _ _)) with (dmax s) by (symmetry; apply dmax_geo; [apply Hg2|apply Hg2]).
+        rewrite Hfat. apply extend_chain; try assumption; [apply dmax_dok; exact Hv|].
+        eapply Forall_impl; [|exact Hf]. cbv beta. intros a Ha. rewrite Hfree in Ha. lia.
+      - replace (max_cluster s1) with (max_cluster s) by (symmetry; apply max_cluster_geo; [apply Hg2|apply Hg2]).
+        apply Forall_app. split; [exact Hle|]. eapply Forall_impl; [|exact Hf]. cbv beta. intros a Ha. lia. }
     rewrite Hch1 in Hw.
     assert (Hg1 : same_geo s s1) by (destruct Hg2 as (A & B & C & D); repeat split; assumption).
     destruct (same_geo_facts _ _ Hg1) as (Ea1 & Eb1 & _ & _ & _).
